@@ -375,6 +375,7 @@ package storage
 //@   ensures[hit; C16] old(has(f.cache.cache, offset)) ==> err == nil && result0 == old(centry(f.cache.cache[offset]).val)
 //@   ensures[miss; C12 C16] !old(has(f.cache.cache, offset)) && err == nil ==> fresh(result0) && (result0.isLeaf ? leafIs(result0) : intIs(result0))
 //@   ensures_assumed[node.inv] err == nil ==> nodeOK(result0) && result0.fileOffset == offset && cached(f, result0) && result0.isLeaf == leafAt(offset)
+//@   ensures_assumed[ghost.fail] err != nil ==> opFailed(f)
 
 //@ spec func fsOf(b *BTree) *fileStore { b.store.(*fileStore) }
 //@ spec pred btOK(b *BTree) { typeof(b.store) == typ(*fileStore) && fsOf(b) != nil && cacheOK(fsOf(b)) }
@@ -494,6 +495,7 @@ package storage
 //@   requires btOK(b)
 //@   modifies @treeState, @cacheState, storeState, b.rootOffset, fsOf(b).nextFreeOffset
 //@   ensures[bt] btOK(b)
+//@   ensures_assumed[ghost.fail] result != nil ==> opFailed(fsOf(b))
 
 // ---- field lists and rows (C05 C06 C18) ----
 
@@ -987,6 +989,7 @@ package storage
 //@   ensures[L8; C02] fs._nextLSN >= old(fs._nextLSN)
 //@   ensures[L7; C02 C03] result == nil ==> fs.lastKey >= old(fs.lastKey)
 //@   ensures[unlock; C13] txn == 0
+//@   ensures[abort.onlystore; C02 C03 C04] (forall i int :: 0 <= i && i < len(w) ==> w[i].WALOp != OpDelete) && result != nil ==> opFailed(fs)
 //@   loop 1 invariant fs != nil && cacheOK(fs) && !fs.autoFlushCache && txn == 0 && logWF(w)
 //@   loop 1 invariant [L8; C02] fs._nextLSN >= old(fs._nextLSN)
 //@   loop 1 invariant [L8.next; C02] forall i int :: 0 <= i && i <= rangeindex ==> w[i].LSN < fs._nextLSN
@@ -995,6 +998,8 @@ package storage
 // ---- page flush and table creation under the lock typestate (C13, C04, C14) ----
 
 //@ ghost var written(n *btreeNode) bool
+// opFailed(f): an operation on store f (page read or write, cache insertion, tree insertion) has reported an error
+//@ ghost history var opFailed(f *fileStore) bool
 //@ func (f *fileStore) update(node *btreeNode) error
 //@   props C04 C12 C13 C16
 //@   requires fsExcl(f) && cacheOK(f) && node != nil
@@ -1023,6 +1028,7 @@ package storage
 //@   ensures[unlock; C13] txn == 0
 //@   ensures[cache] cacheOK(f)
 //@   ensures[clean; C04 C16] forall n *btreeNode :: written(n) && !old(written(n)) ==> !n.dirty
+//@   ensures_assumed[ghost.fail] result != nil ==> opFailed(f)
 //@   loop 1 invariant txn == 2 && cacheOK(f)
 //@   loop 1 invariant [clean; C04 C16] forall n *btreeNode :: written(n) && !old(written(n)) ==> !n.dirty
 
